@@ -693,6 +693,7 @@ class CPHDReader1(CPHDReader):
         if not isinstance(index, str):
             raise TypeError('Got unexpected type {} for identifier'.format(type(index)))
 
+        self._validate_closed()
         the_memmap = self._support_array_memmap[index]
 
         if len(ranges) == 0:
@@ -716,6 +717,7 @@ class CPHDReader1(CPHDReader):
             index: Union[int, str],
             the_range: Union[None, int, Tuple[int, ...], slice] = None) -> Optional[numpy.ndarray]:
         index_key = self._validate_index_key(index)
+        self._validate_closed()
         the_memmap = self._pvp_memmap[index_key]
         the_slice = verify_slice(the_range, the_memmap.shape[0])
         if variable in the_memmap.dtype.fields:
@@ -728,6 +730,7 @@ class CPHDReader1(CPHDReader):
             index: Union[int, str],
             the_range: Union[None, int, Tuple[int, ...], slice] = None) -> numpy.ndarray:
         index_key = self._validate_index_key(index)
+        self._validate_closed()
         the_memmap = self._pvp_memmap[index_key]
         the_slice = verify_slice(the_range, the_memmap.shape[0])
         return numpy.copy(the_memmap[the_slice])
@@ -952,6 +955,7 @@ class CPHDReader0_3(CPHDReader):
             index: int,
             the_range: Union[None, int, Tuple[int, ...], slice] = None) -> Optional[numpy.ndarray]:
         int_index = self._validate_index(index)
+        self._validate_closed()
         the_memmap = self._pvp_memmap[int_index]
         the_slice = verify_slice(the_range, the_memmap.shape[0])
         if variable in the_memmap.dtype.fields:
@@ -964,6 +968,7 @@ class CPHDReader0_3(CPHDReader):
             index: int,
             the_range: Union[None, int, Tuple[int, ...], slice] = None) -> numpy.ndarray:
         int_index = self._validate_index(index)
+        self._validate_closed()
         the_memmap = self._pvp_memmap[int_index]
         the_slice = verify_slice(the_range, the_memmap.shape[0])
         return numpy.copy(the_memmap[the_slice])
